@@ -467,8 +467,11 @@ class FitEnv:
         if mlcl:
             mc = loader.load("mlcl")
             mc.check_array = lambda a, **kw: np.asarray(a)
-            self.ml = [(0, 1)] if self.n >= 2 else []
-            self.cl = [(0, 2)] if self.n >= 3 else []
+            if isinstance(mlcl, dict):
+                self.ml, self.cl = [tuple(p) for p in mlcl.get("ml", [])], [tuple(p) for p in mlcl.get("cl", [])]
+            else:
+                self.ml = [(0, 1)] if self.n >= 2 else []
+                self.cl = [(0, 2)] if self.n >= 3 else []
             self.factor = 0.75     # concrete (exactly representable): the decorator validates it with np.isnan
             numbers_register()
             self.mdl = mc.add_mlcl_constraint(self.mdl, must_link=[list(p) for p in self.ml] or None, cannot_link=[list(p) for p in self.cl] or None,
@@ -526,11 +529,26 @@ class FitEnv:
         key = (what, metric if isinstance(metric, str) else id(metric), tuple(sorted(params.items())), id(X), None if Y is None else id(Y))
         if key not in self.affinities:
             n = len(X)
-            tag = ("a" if what == "kernel" else "m") + str(len(self.affinities) or "")
+            import zlib
+            # the symbol names encode WHICH kernel / metric with WHICH parameters produced the matrix (two different requests
+            # must never share symbols, whatever the order in which they are made)
+            h = zlib.crc32(repr((metric if isinstance(metric, str) else "callable", sorted(params.items()), Y is not None and Y is not X)).encode()) % 100000
+            base = "linear" if what == "kernel" else "euclidean"
+            tag = ("a" if what == "kernel" else "m") + ("" if (metric == base and not params) else f"h{h}")
+            # ... and the CONTENT of the data (an array edited in place by the caller is different data)
+            def _content(Z):
+                Z = np.asarray(Z, dtype=object)
+                return tuple(to_rat(v).key() if not isinstance(v, (str, bytes)) else v for v in Z.reshape(-1))
+            default_names = all(k[0] == "v" and k[1].startswith("x_") for k in (core.CTX.factors[f] for v in np.asarray(X, dtype=object).reshape(-1) for f, _ in to_rat(v).f))
+            if not default_names:
+                tag += f"d{zlib.crc32(repr(_content(X)).encode()) % 100000}"
             if Y is None or Y is X:
                 A = harness.symmetric_matrix(n, tag, sign=("0+" if what == "distance" else None), zero_diag=(what == "distance"))
             else:
                 A = harness.free_matrix(n, len(Y), tag)
+            post = getattr(self, "affinity_post", None)
+            if post is not None:
+                A = post(A)
             self.affinities[key] = A
             self.affinity_log = getattr(self, "affinity_log", []) + [dict(what=what, metric=metric, params=dict(params), X=X, Y=Y, value=A)]
         return self.affinities[key]
@@ -716,7 +734,11 @@ def _replay_loop(rep, verbose):
         factor = 0.8
         if rep.get("mlcl"):
             mc = loader.real("mlcl")
-            ml, cl = ([[0, 1]] if n >= 2 else None), ([[0, 2]] if n >= 3 else None)
+            if isinstance(rep.get("mlcl"), dict):
+                ml = [list(p) for p in rep["mlcl"].get("ml", [])] or None
+                cl = [list(p) for p in rep["mlcl"].get("cl", [])] or None
+            else:
+                ml, cl = ([[0, 1]] if n >= 2 else None), ([[0, 2]] if n >= 3 else None)
             mdl = mc.add_mlcl_constraint(mdl, must_link=ml, cannot_link=cl, factor=factor)
         mdl.fit(X)
         gem = inner_get()
